@@ -332,6 +332,7 @@ theorem Tr.step (max : Nat) (cb : Cbs) (s : Sess) (op : AppOp) : Tr s (step max 
   | sendText bs => exact Tr.sendStep s _
   | sendBinary bs => exact Tr.sendStep s _
   | sendPing bs => exact Tr.sendStep s _
+  | transportClosed => exact Tr.dead s _ (by simp [Iora.Ws.step, erase, closedB])
 
 theorem Tr.run (max : Nat) (cb : Cbs) : ∀ (ops : List AppOp) (s : Sess), Tr s (run max cb s ops).2 (run max cb s ops).1 := by
   intro ops
@@ -478,6 +479,7 @@ theorem step_bounded (max : Nat) (cb : Cbs) (s : Sess) (op : AppOp) (h : Bounded
   | sendText bs => exact sendStep_bounded max s _ h
   | sendBinary bs => exact sendStep_bounded max s _ h
   | sendPing bs => exact sendStep_bounded max s _ h
+  | transportClosed => exact ⟨by simp [step, erase]; omega, by simp [step, erase]⟩
 
 theorem run_bounded (max : Nat) (cb : Cbs) : ∀ (ops : List AppOp) (s : Sess), Bounded max s →
     Bounded max (run max cb s ops).1 := by
